@@ -1106,6 +1106,15 @@ def main():
     A('def cVars : List (String × String) := [')
     A(',\n'.join(f'  ({lstr(n)}, {lstr(w.ctype(t))})' for n, t in sorted(w.cvars.items())))
     A(']')
+    A('/-- alias typedefs of the C headers: alias, the type it names directly. -/')
+    A('def cAliases : List (String × String) := [')
+    alias_rows = []
+    for n, u in sorted(w.typedefs.items()):
+        u2 = re.sub(r'\bconst\b', '', u).strip()
+        if u2.startswith('embedded_pairing'):
+            alias_rows.append('  (' + lstr(n) + ', ' + lstr(u2) + ')')
+    A(',\n'.join(alias_rows))
+    A(']')
     # sizeof of every C type the bindings mention (host ABI: the Go bindings are built with cgo for the host)
     A('/-- sizeof of the C types, measured with the host C compiler. -/')
     A('def cSizes : List (String × Int) := [')
